@@ -233,6 +233,30 @@ def emit_save(tree):
     raise Unsupported('remove_checkpoint_paths = _get_checkpoint_paths(base_path)[:<upper>] expected')
   from translate import Ctx
   up, _ = Ctx().expr(rv.slice.upper, {'keep': 'Z'}, 'Z')
+  # the ORDER of the effects (fail-closed): write the temporary, rename it, list, then remove -- the tail of the body is
+  #   serialization.save_state(state, tmp_path); tf.io.gfile.rename(tmp_path, checkpoint_path, overwrite=True);
+  #   remove_checkpoint_paths = ...; for path in remove_checkpoint_paths: tf.io.gfile.remove(path)
+  body = [x for x in fd.body if not (isinstance(x, ast.Expr) and isinstance(x.value, ast.Constant))]
+  if len(body) < 4:
+    raise Unsupported('save_checkpoint: body too short')
+  s_save, s_ren, s_rm, s_for = body[-4:]
+  c = s_save.value if isinstance(s_save, ast.Expr) else None
+  if not (_is_call(c, 'serialization.save_state', 2) and _is_name(c.args[0], 'state') and _is_name(c.args[1], 'tmp_path')):
+    raise Unsupported('serialization.save_state(state, tmp_path) expected before the rename')
+  c = s_ren.value if isinstance(s_ren, ast.Expr) else None
+  if not (_is_call(c, 'tf.io.gfile.rename', 2) and _is_name(c.args[0], 'tmp_path') and _is_name(c.args[1], 'checkpoint_path')):
+    raise Unsupported('tf.io.gfile.rename(tmp_path, checkpoint_path, ...) expected right after save_state')
+  if not (isinstance(s_rm, ast.Assign) and _is_name(s_rm.targets[0], 'remove_checkpoint_paths')):
+    raise Unsupported('remove_checkpoint_paths must be computed after the rename')
+  ok = (isinstance(s_for, ast.For) and _is_name(s_for.target, 'path') and _is_name(s_for.iter, 'remove_checkpoint_paths')
+        and len(s_for.body) == 1 and isinstance(s_for.body[0], ast.Expr) and
+        _is_call(s_for.body[0].value, 'tf.io.gfile.remove', 1) and _is_name(s_for.body[0].value.args[0], 'path'))
+  if not ok:
+    raise Unsupported('for path in remove_checkpoint_paths: tf.io.gfile.remove(path) expected last')
+  for x in body[:-4]:
+    for n in ast.walk(x):
+      if isinstance(n, ast.Call) and not (_is_call(n, 'os.path.join')):
+        raise Unsupported('save_checkpoint: unexpected call before save_state: ' + ast.dump(n)[:80])
   return '\n'.join([
       f'Definition checkpoint_path (base_path : str) (round_num : Z) : str := {cp}.',
       f'Definition tmp_path (checkpoint_path : str) : str := {tp}.',
